@@ -83,7 +83,7 @@ func symAddressObject(i int) AddressObject {
 		},
 	}
 	if vrt.Choose(tag+"-hasmodtime", 2) == 1 {
-		ao.ModTime = vrt.Time(tag + "-modtime")
+		ao.ModTime = vrt.TimeIn(tag+"-modtime", vrt.Choose(tag+"-zone", 3))
 	}
 	return ao
 }
@@ -293,7 +293,7 @@ func VerifH_C10_GetPut() {
 	}
 	be.putResult = &AddressObject{Path: storedPath, ETag: vrt.Text("stored-etag")}
 	if vrt.Choose("stored-hasmodtime", 2) == 1 {
-		be.putResult.ModTime = vrt.Time("stored-modtime")
+		be.putResult.ModTime = vrt.TimeIn("stored-modtime", vrt.Choose("stored-zone", 3))
 	}
 	// the caller may name the resource relative to the client's endpoint
 	given := putPath
